@@ -91,6 +91,17 @@ class Accounting:
 
     def check_path(self, s, p, loops):
         self.checked += 1
+        self._unknown = None
+        n0 = len(self.problems)
+        self._check_path(s, p, loops)
+        if self._unknown:
+            # mismatches found on a path that runs through an unsummarised writer are lack of information
+            for i in range(n0, len(self.problems)):
+                k, msg, bb = self.problems[i]
+                if k in ('mismatch', 'shape'):
+                    self.problems[i] = ('unknown', msg + f' — but the path calls {self._unknown}(), a function of this crate with mutable access whose effect on the buffer is not in the contract table', bb)
+
+    def _check_path(self, s, p, loops):
         # Σ Δ|buf| along the path; |buf| at a `Vec::len(buffer)` call is B0 + Σ so far
         total = ZERO
         measured = {}
@@ -102,6 +113,17 @@ class Accounting:
             if d is None:
                 if called(ev[1], 'Vec::len') and self.is_buffer(ev[2][0]):
                     measured[ev[4]] = lin_add(({B0: 1}, 0), total)
+                else:
+                    # a function of this crate that is not in the contract table but receives something mutable
+                    # (the writer itself, the buffer): its effect on the buffer is unknown on this path
+                    import sym
+                    fb = sym.FACTS.bodies if sym.FACTS is not None else {}
+                    if ev[1] in fb:
+                        t = ev[5]
+                        for a in t.get('args', []):
+                            if a.get('k') in ('copy', 'move') and str(self.body.local_ty(a['place']['local']).get('s', '')).startswith('&mut'):
+                                self._unknown = canon(ev[1]).split('::')[-1]
+                                break
                 continue
             if d == 'opaque':
                 # a writer whose byte count is unknown: a ghost quantity that only a len() measurement can capture
